@@ -278,7 +278,17 @@ impl Prop for C19 {
                 if oversized {
                     out.label("oversized");
                 }
-                let content = s_of(*content_len as usize, 3);
+                // content with characters that need escaping in JSON (must be stored unescaped)
+                let content: String = s_of(*content_len as usize, 3)
+                    .chars()
+                    .enumerate()
+                    .map(|(i, ch)| match i % 7 {
+                        2 => '"',
+                        4 => '\n',
+                        5 => '\\',
+                        _ => ch,
+                    })
+                    .collect();
                 let (needed, r): (usize, Result<(R, bool), Fail>) = match via {
                     Via::TagsFromParts => {
                         let needed = tsize;
